@@ -188,6 +188,7 @@ def cases(g):
     yield 'minimum', lambda np: np.minimum(np.array(A), B)
     yield 'maximum', lambda np: np.maximum(np.array(A), np.array(B))
     yield 'clip', lambda np: np.clip(np.array(A), -1, 2)
+    yield 'result_type', lambda np: (np.result_type(np.array(A), np.array(B)).kind, np.result_type(np.array(A), np.array(A)).kind, np.promote_types(np.array(A).dtype, bool).kind)
     if kind in 'fi':
         yield 'isclose', lambda np: np.isclose(np.array(A), B)
         yield 'isclose.near', lambda np: (np.isclose(np.array([2000.0, 1.0, 0.0, 1e-9]), np.array([1999.99, 1.00002, 1e-9, 0.0])), np.allclose(np.array(A, dtype=float), np.array(A, dtype=float) * (1 + 1e-7)))
